@@ -210,38 +210,51 @@ Qed.
 (* relational reading of one pass through poll                                               *)
 (* ======================================================================================== *)
 
+Ltac sel := cbn [ws svcs cq cq_open sq sq_open next_sid counter gap inprog now
+                 set_ws set_svcs set_cq set_open set_sq set_sqopen set_nsid set_counter set_gap set_inprog set_now
+                 restart finish panicked fst snd] in *.
+
 Inductive StopH (c : cfg) (s : st) : st -> list obs -> bool -> Prop :=
 | SH_none : sq s = [] -> StopH c s s [] false
-| SH_ovf g sid rest :
-    sq s = (g, sid) :: rest -> total c (set_sq s rest) = TOverflow ->
-    StopH c s (set_ws (set_sq s rest) WPanicked) [Panic POverflow] true
 | SH_idle g sid rest :
-    sq s = (g, sid) :: rest -> total c (set_sq s rest) = TVal 0 ->
+    sq s = (g, sid) :: rest -> inprog s = [] ->
     StopH c s (set_ws (set_sq s rest) WDone)
           (StopAck sid true :: Done :: drop_obs (set_sq s rest)) true
-| SH_graceful sid rest n :
-    sq s = (true, sid) :: rest -> total c (set_sq s rest) = TVal n -> n <> 0%Z ->
+| SH_graceful sid rest :
+    sq s = (true, sid) :: rest -> inprog s <> [] ->
     StopH c s (set_ws (set_svcs (set_sq s rest) (shutdown_svcs false (svcs s)))
                       (WShutdown (now s + 1000) (now s) sid))
           (match ws s with WShutdown _ _ sid0 => [StopLost sid0] | _ => [] end) false
-| SH_forced sid rest n :
-    sq s = (false, sid) :: rest -> total c (set_sq s rest) = TVal n -> n <> 0%Z ->
+| SH_forced sid rest :
+    sq s = (false, sid) :: rest -> inprog s <> [] ->
     StopH c s (set_ws (set_svcs (set_sq s rest) (shutdown_svcs true (svcs s))) WDone)
           (StopAck sid false :: Done
            :: drop_obs (set_svcs (set_sq s rest) (shutdown_svcs true (svcs s)))) true.
+
+Lemma total_zero : forall s, (total s =? 0)%Z = true <-> inprog s = [].
+Proof.
+  intros s. unfold total. split; intros H.
+  - apply Z.eqb_eq in H. destruct (inprog s); auto. cbn [length] in H. lia.
+  - rewrite H. reflexivity.
+Qed.
+
+Lemma total_nonzero : forall s, (total s =? 0)%Z = false <-> inprog s <> [].
+Proof.
+  intros s. split; intros H.
+  - intros E. apply total_zero in E. congruence.
+  - destruct (total s =? 0)%Z eqn:E; auto. apply total_zero in E. contradiction.
+Qed.
 
 Lemma stop_handler_spec : forall c s s' o b, stop_handler c s = (s', o, b) -> StopH c s s' o b.
 Proof.
   unfold stop_handler. intros c s s' o b H.
   destruct (sq s) as [|[g sid] rest] eqn:Esq.
   - inv H. now constructor.
-  - destruct (total c (set_sq s rest)) as [|n] eqn:Et.
-    + inv H. eapply SH_ovf; eauto.
-    + destruct (n =? 0)%Z eqn:En.
-      * apply Z.eqb_eq in En. subst n. inv H. eapply SH_idle; eauto.
-      * apply Z.eqb_neq in En. destruct g; inv H.
-        -- eapply SH_graceful; eauto.
-        -- eapply SH_forced; eauto.
+  - destruct (total (set_sq s rest) =? 0)%Z eqn:En.
+    + apply total_zero in En. sel. inv H. eapply SH_idle; eauto.
+    + apply total_nonzero in En. sel. destruct g; inv H.
+      * eapply SH_graceful; eauto.
+      * eapply SH_forced; eauto.
 Qed.
 
 Inductive SStep (c : cfg) (s : st) : st -> list obs -> next -> Prop :=
@@ -276,7 +289,12 @@ Inductive SStep (c : cfg) (s : st) : st -> list obs -> next -> Prop :=
     SStep c s (set_svcs s sv) o NRet
 | SS_A_closed sv o :
     ws s = WAvailable -> check_ready 0 (svcs s) = (sv, CROk true, o) -> cq s = [] -> cq_open s = false ->
+    stop_closed s = true ->
     SStep c s (set_ws (set_svcs s sv) WDone) (o ++ Done :: drop_obs (set_svcs s sv)) NRet
+| SS_A_orphan sv o :
+    ws s = WAvailable -> check_ready 0 (svcs s) = (sv, CROk true, o) -> cq s = [] -> cq_open s = false ->
+    stop_closed s = false ->
+    SStep c s (set_svcs s sv) o NRet
 | SS_A_idx sv o tok cid rest :
     ws s = WAvailable -> check_ready 0 (svcs s) = (sv, CROk true, o) -> cq s = (tok, cid) :: rest ->
     nth_error sv tok = None ->
@@ -300,9 +318,11 @@ Proof.
   - (* Available *)
     destruct (check_ready 0 (svcs s)) as [[sv r] o1] eqn:Ec. destruct r as [[|]|k].
     + cbn [cq set_svcs] in H. destruct (cq s) as [|[tok cid] rest] eqn:Eq.
-      * cbn [cq_open set_svcs] in H. destruct (cq_open s) eqn:Eo; inv H.
-        -- eapply SS_A_idle; eauto.
+      * cbn [cq_open set_svcs] in H. destruct (cq_open s) eqn:Eo; [inv H; eapply SS_A_idle; eauto|].
+        change (stop_closed (set_svcs s sv)) with (stop_closed s) in H.
+        destruct (stop_closed s) eqn:Esc; inv H.
         -- eapply SS_A_closed; eauto.
+        -- eapply SS_A_orphan; eauto.
       * cbn [svcs set_svcs] in H. destruct (nth_error sv tok) eqn:En; inv H.
         -- eapply SS_A_call; eauto.
         -- eapply SS_A_idx; eauto.
@@ -326,10 +346,6 @@ Proof.
   - inv H. apply SS_fin. unfold finished. now rewrite Ew.
   - inv H. apply SS_fin. unfold finished. now rewrite Ew.
 Qed.
-
-Ltac sel := cbn [ws svcs cq cq_open sq next_sid counter gap inprog now
-                 set_ws set_svcs set_cq set_open set_sq set_nsid set_counter set_gap set_inprog set_now
-                 restart finish panicked fst snd] in *.
 
 Lemma pstep_cases : forall c top s s' o nx, pstep c top s = (s', o, nx) ->
   (top = false /\ SStep c s s' o nx) \/
@@ -393,7 +409,6 @@ Proof.
   intros c s s0 o0 b [L S C] F H. inv H.
   - constructor; auto.
   - constructor; sel; auto. exact I. intros X; discriminate X.
-  - constructor; sel; auto. exact I. intros X; discriminate X.
   - constructor; sel.
     + now rewrite shutdown_svcs_length.
     + exact I.
@@ -418,13 +433,11 @@ Proof.
     - intros _. sel. cbn [length]. lia. }
   sel. destruct (now s <? dl)%Z.
   - inv H. constructor; sel; auto. intros _. sel. cbn [length]. lia.
-  - destruct (total c (set_counter (set_cq s []) cnt)) as [|n].
-    + inv H. apply K. exact I.
-    + destruct (n =? 0)%Z.
-      * inv H. apply (K WDone). exact I.
-      * destruct (c_timeout c <=? now s - start)%Z; inv H.
-        -- apply (K WDone). exact I.
-        -- apply K. exact I.
+  - destruct (total (set_counter (set_cq s []) cnt) =? 0)%Z.
+    + inv H. apply (K WDone). exact I.
+    + destruct (c_timeout c <=? now s - start)%Z; inv H.
+      * apply (K WDone). exact I.
+      * apply K. exact I.
 Qed.
 
 Lemma sstep_inv : forall c s s1 o nx,
@@ -470,6 +483,9 @@ Proof.
     + rewrite H0. eapply check_ready_status in H1; eauto.
     + intros _; exact C.
   - (* A closed *) constructor; sel; eauto. exact I. intros X; discriminate X.
+  - (* A orphan *) constructor; sel; eauto.
+    + rewrite H0. eapply check_ready_status in H1; eauto.
+    + intros _; exact C.
   - (* A idx *) constructor; sel; eauto. exact I. intros X; discriminate X.
   - (* A call *) constructor; sel; eauto.
     + rewrite H0. eapply check_ready_status in H1; eauto.
@@ -491,8 +507,7 @@ Proof.
   intros c s dl start sid s1 o H. right. unfold shutdown_step in H.
   destruct (drain c (cq s) (counter s)) as [cnt o1]. sel.
   destruct (now s <? dl)%Z; [inv H; reflexivity|].
-  destruct (total c _) as [|n]; [inv H; reflexivity|].
-  destruct (n =? 0)%Z; [inv H; reflexivity|].
+  destruct (total _ =? 0)%Z; [inv H; reflexivity|].
   destruct (c_timeout c <=? now s - start)%Z; inv H; reflexivity.
 Qed.
 
@@ -661,9 +676,7 @@ Proof.
   intros c s dl start sid s1 o H. unfold shutdown_step in H.
   destruct (drain c (cq s) (counter s)) as [cnt o1] eqn:Ed. apply drain_basic in Ed. sel.
   destruct (now s <? dl)%Z; [inv H; auto|].
-  destruct (total c _) as [|n].
-  { inv H. apply Forall_app2; auto. repeat constructor. }
-  destruct (n =? 0)%Z.
+  destruct (total _ =? 0)%Z.
   { inv H. rewrite <- app_assoc. apply Forall_app2; auto. cbn [app].
     constructor; [exact I|]. constructor; [exact I|]. apply drop_obs_basic. }
   destruct (c_timeout c <=? now s - start)%Z; inv H; auto.
@@ -961,8 +974,7 @@ Proof.
   intros c s dl start sid s1 o H Ew. unfold shutdown_step in H. unfold live.
   destruct (drain c (cq s) (counter s)) as [cnt o1]. sel.
   destruct (now s <? dl)%Z. { inv H. sel. rewrite Ew. tauto. }
-  destruct (total c _) as [|n]. { inv H. sel. tauto. }
-  destruct (n =? 0)%Z. { inv H. sel. tauto. }
+  destruct (total _ =? 0)%Z. { inv H. sel. tauto. }
   destruct (c_timeout c <=? now s - start)%Z; inv H; sel; tauto.
 Qed.
 
@@ -1038,8 +1050,7 @@ Proof.
   intros c s dl start sid s1 o H. unfold shutdown_step in H.
   destruct (drain c (cq s) (counter s)) as [cnt o1]. sel.
   destruct (now s <? dl)%Z; [inv H; reflexivity|].
-  destruct (total c _) as [|n]; [inv H; reflexivity|].
-  destruct (n =? 0)%Z; [inv H; reflexivity|].
+  destruct (total _ =? 0)%Z; [inv H; reflexivity|].
   destruct (c_timeout c <=? now s - start)%Z; inv H; reflexivity.
 Qed.
 
@@ -1224,14 +1235,12 @@ Qed.
 
 Lemma shutdown_step_main : forall c s dl start sid s1 o,
   shutdown_step c s dl start sid = (s1, o) ->
-  filter is_main o = [] \/ filter is_main o = [Done] \/ filter is_main o = [Panic POverflow].
+  filter is_main o = [] \/ filter is_main o = [Done].
 Proof.
   intros c s dl start sid s1 o H. unfold shutdown_step in H.
   destruct (drain c (cq s) (counter s)) as [cnt o1] eqn:Ed. apply drain_main in Ed. sel.
   destruct (now s <? dl)%Z; [inv H; auto|].
-  destruct (total c _) as [|n].
-  { inv H. rewrite filter_app, Ed. auto. }
-  destruct (n =? 0)%Z.
+  destruct (total _ =? 0)%Z.
   { inv H. rewrite !filter_app, Ed. cbn [filter is_main app]. rewrite drop_obs_main. auto. }
   destruct (c_timeout c <=? now s - start)%Z; inv H; auto.
   rewrite !filter_app, Ed. cbn [filter is_main app]. rewrite drop_obs_main. auto.
